@@ -73,7 +73,9 @@ def doc_lines(L: Dict[str, Any]) -> List[str]:
         if prob == "unkfield":
             lines += [":unknownfield: text", ""]
         lines += ["Note:", "    note body line one", "    note body two%s" % t("field")]
-        if has_args:
+        if L.get("typed"):
+            lines += ["", "Args:", "    a (T): the arg", "    b (T): the b", "    c (T): the c", "    nosuch (T): text"]
+        elif has_args:
             lines += ["", "Args:", "    a: the arg"]
             if prob == "param":
                 lines += ["    nosuch: text"]
@@ -81,7 +83,9 @@ def doc_lines(L: Dict[str, Any]) -> List[str]:
         if prob == "unkfield":
             lines += [":unknownfield: text", ""]
         lines += ["Note", "----", "note body line one", "note body two%s" % t("field")]
-        if has_args:
+        if L.get("typed"):
+            lines += ["", "Parameters", "----------", "a : T", "    the arg", "b : T", "    the b", "c : T", "    the c", "nosuch : T", "    text"]
+        elif has_args:
             lines += ["", "Parameters", "----------", "a", "    the arg"]
             if prob == "param":
                 lines += ["nosuch", "    text"]
@@ -108,7 +112,8 @@ def render(L: Dict[str, Any]) -> Tuple[str, Dict[str, int]]:
         out.append(base + "class K:")
         q_ind = base + "    "
     elif kind in ("function", "method"):
-        out.append(base + ("def f(self, a):" if kind == "method" else "def f(a):"))
+        params = "a, b=1, c=2" if L.get("typed") else "a"
+        out.append(base + ("def f(self, %s):" % params if kind == "method" else "def f(%s):" % params))
         q_ind = base + "    "
     elif kind == "attribute":
         out.append(base + "v = 1")
@@ -123,16 +128,19 @@ def render(L: Dict[str, Any]) -> Tuple[str, Dict[str, int]]:
     else:
         out.append(q_ind + prefix + '"""')
         for i in range(L["blanks"]):
-            out.append(body_ind if i == L["blanks"] - 1 else "")      # the last leading blank line is white space only
+            # the last leading blank line is white space only (longws: more of it than the indentation)
+            out.append((body_ind + ("    " if L.get("longws") else "")) if i == L["blanks"] - 1 else "")
         rest = lines
         text0 = quote + 1 + L["blanks"]
     out += [(body_ind + s) if s else "" for s in rest]
     out.append(body_ind + '"""')
     close = len(out)
     if kind == "class":
-        out += [q_ind + "def __init__(self, a):", q_ind + '    """Init."""']
+        out += [q_ind + "def __init__(self, %s):" % ("a, b=1, c=2" if L.get("typed") else "a"), q_ind + '    """Init."""']
     if kind in ("function", "method"):
         out.append(q_ind + "return a")
+    if L.get("typed"):
+        out += ["class T:", '    """The type."""']         # below the object: moves nothing
     # where the planted token / field actually is in the rendered file
     needle = {"xref": "nosuch.name", "markup": "unclosed", "unkfield": "unknownfield", "param": "nosuch"}[L["prob"]]
     at = [i + 1 for i, s in enumerate(out) if needle in s]
@@ -324,6 +332,24 @@ def kf_rst_line_not_converted(w: Dict[str, Any]) -> bool:
             and w.get("observed", {}).get("lines") == [w.get("expected", {}).get("first", -99) + 1])
 
 
+def kf_leading_ws(w: Dict[str, Any]) -> bool:
+    """Python twin of Lines.tla KF_LeadingWs: a white-space-only leading line longer than the indentation survives cleandoc
+    but was skipped by extract_docstring_linenum: the printed line is exactly one too low."""
+    lay, exp = w.get("layout") or {}, w.get("expected") or {}
+    got = w.get("observed", {}).get("lines") or []
+    return (w.get("invariant") == "ObsAcceptable" and bool(lay.get("longws")) and not lay.get("typed") and len(got) == 1
+            and not (exp["lo"] <= got[0] <= exp["hi"]) and exp["lo"] <= got[0] - 1 <= exp["hi"])
+
+
+def kf_napoleon_beyond(w: Dict[str, Any]) -> bool:
+    """Python twin of Lines.tla KF_Napoleon: google / numpy section with typed entries: the line counted in the text napoleon
+    produced (one extra :type: line per entry) lies past the closing quotes of the docstring."""
+    lay, exp = w.get("layout") or {}, w.get("expected") or {}
+    got = w.get("observed", {}).get("lines") or []
+    return (w.get("invariant") == "ObsAcceptable" and bool(lay.get("typed")) and lay.get("fmt") in ("google", "numpy")
+            and len(got) == 1 and exp["hi"] < got[0] <= exp["hi"] + 4)
+
+
 # ------------------------------------------------------------------------------------------------- cfgs
 def lines_cfg(ctx: Ctx, source: str) -> str:
     if ctx.quick:
@@ -340,6 +366,7 @@ CONSTANTS Source = "{source}"
   Indents = {inds}
   BlankCounts = {{0, 1, 2}}
   RstLineNotConverted = {"TRUE" if os.environ.get("VERIF_C16_MODEL") == "prefix" else "FALSE"}
+  LeadingWsKept = {"FALSE" if os.environ.get("VERIF_C16_LEADWS") == "fixed" else "TRUE"}
 CONSTRAINT Emit
 {inv}"""
 
@@ -359,6 +386,8 @@ CONSTANTS Source = "{source}"
 def run(ctx: Ctx) -> int:
     rng = random.Random(ctx.seed)
     ctx.register_matcher("rst-markup-line-off-by-one", kf_rst_line_not_converted)
+    ctx.register_matcher("leading-ws-line-shift", kf_leading_ws)
+    ctx.register_matcher("napoleon-line-beyond-docstring", kf_napoleon_beyond)
     nproc = max(2, min(NCPU, 16))
 
     # ================================================================= Lines: spec -> code
@@ -401,7 +430,8 @@ def run(ctx: Ctx) -> int:
         ctx.traces += 1
         exp = {"lo": rec["lo"], "hi": rec["hi"], "first": rec["first"], "at": rec["at"], "impl": rec["impl"]}
         wit = {"layout": o["lay"], "expected": exp, "observed": {"lines": o["lines"], "msgs": o["msgs"]},
-               "key": "lines:%s:%s:%s:%s" % (o["lay"]["fmt"], o["lay"]["prob"], o["lay"]["pos"], o["lay"]["kind"])}
+               "key": "lines:%s:%s:%s:%s:%s%s" % (o["lay"]["fmt"], o["lay"]["prob"], o["lay"]["pos"], o["lay"]["kind"],
+                                                 "typed" if o["lay"]["typed"] else "", "longws" if o["lay"]["longws"] else "")}
         if len(o["lines"]) != 1:
             ctx.violation({"invariant": "ObsOne", **wit})          # the planted problem lost, or reported twice
         elif not o["path_ok"]:
@@ -411,8 +441,9 @@ def run(ctx: Ctx) -> int:
         if len(o["lines"]) == 1 and o["lines"][0] != rec["impl"]:
             drift += 1
             ctx.drift_note({"layout": o["lay"], "model": rec["impl"], "real": o["lines"][0]})
-            dk = "%s/%s/%s/args=%s: real-model=%d" % (o["lay"]["fmt"], o["lay"]["prob"], o["lay"]["pos"],
-                                                    o["lay"]["kind"] in ("function", "method", "class"), o["lines"][0] - rec["impl"])
+            dk = "%s/%s/%s/args=%s/typed=%s/longws=%s: real-model=%d" % (
+                o["lay"]["fmt"], o["lay"]["prob"], o["lay"]["pos"], o["lay"]["kind"] in ("function", "method", "class"),
+                o["lay"]["typed"], o["lay"]["longws"], o["lines"][0] - rec["impl"])
             drift_classes[dk] = drift_classes.get(dk, 0) + 1
         if o["id"] % 1500 == 1:
             ctx.sample({"layout": o["lay"], "accepted": [rec["lo"], rec["hi"]], "model": rec["impl"], "printed": o["lines"], "msg": o["msgs"][:1]})
